@@ -41,7 +41,9 @@ ASSUMPTIONS = [
     "console_reader_full needs the free strings of the failing events (message, file names) not to be one of the three marker "
     "strings ' Failure in ', 'OK (', 'Errors (' and no message to be a lone ':'",
 ]
-RULE = ("test programs of 0-100 tests (thorough: up to 400): every failure kind (FAIL, FAIL_TEST, CHECK, UtestShell::fail with "
+RULE = ("one real check per assert function / macro family (31 kinds incl. MEMCMP with length 0 and > 0, CHECK_COMPARE passing "
+        "and failing, CHECK_THROWS, the C entry points), passing and failing, in every phase; "
+        "test programs of 0-100 tests (thorough: up to 400): every failure kind (FAIL, FAIL_TEST, CHECK, UtestShell::fail with "
         "both terminators, FAIL_TEXT_C, CHECK_C, TEST_EXIT and exitTest without exceptions, std exception, foreign exception) in "
         "every phase and combined across phases, plain and _LOCATION forms; runs of 11-40 consecutive failing tests of one kind "
         "and of mixed kinds; ignored tests, -ri, runs in which nothing runs but something is ignored (only IGNORE_TESTs, filters "
@@ -55,6 +57,13 @@ NAMES = ["n%d" % i for i in range(1, 9)]
 FAIL_KINDS = ["failcpp", "checkcpp", "failc", "checkc", "failplain", "checkplain", "failcplain", "checkcplain",
               "failtest", "failtestplain", "shellfail", "shellfailc", "throwstd", "throwother", "exit", "exitc"]
 THROWS = ("throwstd", "throwother")
+# one real check per assert function / macro family (statement `checkKind <k> <pass|fail> <file> <line>`)
+CHECK_KINDS = ["check", "checkText", "checkEqual", "longs", "ulongs", "longlongs", "ulonglongs", "bytes", "sbytes", "pointers",
+               "fpointers", "doubles", "strcmp", "strncmp", "strcmpNocase", "strcmpContains", "strcmpNocaseContains", "memcmp0",
+               "memcmp", "bits", "compare", "enumsInt", "throws", "cInt", "cReal", "cString", "cPointer", "cMemcmp0", "cMemcmp",
+               "cBits", "checkC"]
+ZERO_LENGTH = ("memcmp0", "cMemcmp0")          # never fail, still count one
+
 PHASES = ["setup", "body", "teardown"]
 
 
@@ -66,34 +75,52 @@ class Gen:
         self.throw_free = throw_free
 
     def kinds(self):
-        return [k for k in FAIL_KINDS if not (self.throw_free and k in THROWS)]
+        ks = [k for k in FAIL_KINDS if not (self.throw_free and k in THROWS)]
+        # half of the failing statements are failing checks of a random kind
+        return ks + ["ck"] * len(ks)
+
+    def check_kinds(self):
+        return [k for k in CHECK_KINDS if not (self.throw_free and k == "throws")]
+
+    def check_stmt(self, kind, passing, tline):
+        rng = self.rng
+        f = "t" if rng.random() < 0.55 else str(rng.randrange(4))
+        line = max(0, tline + rng.choice([-3, -1, 0, 0, 1, 2, 5, 17]))
+        return "checkKind %s %s %s %d" % (kind, "pass" if passing else "fail", f, line)
 
     def stmt_fail(self, kind, tline):
         rng = self.rng
+        if kind == "ck":
+            return self.check_stmt(rng.choice([k for k in self.check_kinds() if k not in ZERO_LENGTH]), False, tline)
         if kind in ("failcpp", "checkcpp", "failc", "checkc", "failtest", "shellfail", "shellfailc"):
             f = "t" if rng.random() < 0.55 else str(rng.randrange(4))
             line = max(0, tline + rng.choice([-3, -1, 0, 0, 1, 2, 5, 17]))
             return "%s %s %d" % (kind, f, line)
         return kind
 
-    def filler(self, n):
+    def filler(self, n, tline=10):
         out = []
         for _ in range(n):
             x = self.rng.random()
-            if x < 0.6:
+            if x < 0.45:
                 self.mark += 1
                 out.append("mark %d" % self.mark)
-            elif x < 0.8:
+            elif x < 0.55:
                 out.append("pass")
-            else:
+            elif x < 0.62:
                 out.append("passc")
+            elif x < 0.72:      # the two corners of the counting rule
+                k = self.rng.choice(["memcmp0", "cMemcmp0", "compare", "compare"])
+                out.append(self.check_stmt(k, k == "compare" or self.rng.random() < 0.5, tline))
+            else:
+                out.append(self.check_stmt(self.rng.choice(self.check_kinds()), True, tline))
         return out
 
     def phase(self, fail_kind, tline, long=False):
         """statements of one phase; with fail_kind the failing statement sits at a random position"""
         rng = self.rng
         n = rng.choice([0, 1, 1, 2, 3]) if not long else rng.choice([3, 5, 8])
-        st = self.filler(n)
+        st = self.filler(n, tline)
         if fail_kind:
             pos = rng.randrange(len(st) + 1)
             st.insert(pos, self.stmt_fail(fail_kind, tline))
@@ -347,6 +374,8 @@ def observe(r, rep, prefix=""):
             w = l.split()
             if len(w) >= 5 and w[4] in FAIL_KINDS:
                 rep.count("%sfail.%s.%s" % (prefix, w[3], w[4]))
+            elif len(w) >= 7 and w[4] == "checkKind":
+                rep.count("%scheckKind.%s.%s" % (prefix, w[5], w[6]))
         elif l.startswith("ended "):
             w = l.split()
             if w[-1] == "1":
